@@ -21,7 +21,8 @@ Verdict(e) ==
   IF \E k \in 1..Len(e.pats) : ~EndOK(e.pats[k], TRUE)
   THEN [c |-> "OutOfDomain", dev |-> FALSE, k |-> 0]      \* a '$' followed by something mandatory: not judged
   ELSE IF e.res = "seq"
-  THEN IF ~Embeds(e.w, e.req, e.limit)       THEN [c |-> "NotRequiredPlusInsertions", dev |-> FALSE, k |-> 0]
+  THEN IF ~Embeds(e.w, e.req, Len(e.w))      THEN [c |-> "NotRequiredPlusInsertions", dev |-> FALSE, k |-> 0]
+       ELSE IF ~Embeds(e.w, e.req, e.limit)  THEN [c |-> "MoreConsecutiveInsertionsThanPermitted", dev |-> FALSE, k |-> e.limit]
        ELSE IF ~MatchesAll(e.w, e.pats)      THEN [c |-> "DoesNotMatchPattern", dev |-> FALSE, k |-> FirstUnmatched(e.w, e.pats)]
        ELSE IF sh = Impossible \/ Len(e.w) < sh THEN [c |-> "SpecFoundNothingThatShort", dev |-> FALSE, k |-> sh]
        ELSE IF Len(e.w) > sh                 THEN [c |-> "NotShortest", dev |-> dv, k |-> sh]
